@@ -15,6 +15,7 @@ import (
 	"log/slog"
 	"net/http/httptest"
 	"runtime"
+	"strings"
 	"sync"
 	"time"
 
@@ -33,6 +34,7 @@ type caseT struct {
 	Args      svc.Args   `json:"args"`
 	LogLevel  string     `json:"log_level"`
 	RequestID string     `json:"request_id"`
+	Probe     string     `json:"probe,omitempty"`
 }
 
 var reqLevels = []string{"EXCEPTION", "ERROR", "WARN", "INFO", "DEBUG", "TRACE", "", "", "VERBOSE", "debug"}
@@ -65,6 +67,25 @@ func genCase(r *mon.Run, i int) caseT {
 		c.RequestID = fmt.Sprintf("réq-%d-日本", i)
 	default:
 		c.RequestID = fmt.Sprintf("rid-%d-%x", i, rng.Uint32())
+	}
+	// Domain-audit probe arm: inputs the main generator never drew although
+	// the statement covers them (any returned value, any log, any request id).
+	if i%25 == 7 {
+		switch (i / 25) % 4 {
+		case 0: // the Go zero value of the result type: nil slice, nil pointer, "", 0
+			c.Probe = "zero-value-result"
+			c.Script.UAct, c.Script.UZero = svc.ActValue, true
+		case 1: // the same extra key twice in one ClientLog call (last one wins in a map)
+			c.Probe = "duplicate-extra-keys"
+			c.Script.ULogs = append(c.Script.ULogs, svc.Log{Level: "ERROR", Msg: "dup extras", Extras: []svc.KV{{K: "k", V: "first"}, {K: "other", V: "x"}, {K: "k", V: "second"}}})
+		case 2: // a 70 KB message and a 70 KB extra value
+			c.Probe = "long-message"
+			big := strings.Repeat("långt meddelande ", 4200)
+			c.Script.ULogs = append([]svc.Log{{Level: "ERROR", Msg: big, Extras: []svc.KV{{K: "blob", V: big}}}}, c.Script.ULogs...)
+		case 3: // a long request id with quotes, newline, NUL-free control characters
+			c.Probe = "long-request-id"
+			c.RequestID = strings.Repeat("id\"with'quotes\n\t", 20) + fmt.Sprint(i)
+		}
 	}
 	return c
 }
@@ -181,6 +202,9 @@ func (w *worker) run(c caseT) {
 	}
 	if c.Method == "u_void" {
 		r.Class("void")
+	}
+	if c.Probe != "" {
+		r.Class("probe." + c.Probe)
 	}
 	if c.Script.UAct == svc.ActError {
 		r.Class("error." + c.Script.UErr.Kind)
@@ -302,7 +326,8 @@ func main() {
 	r.Assume("log levels outside the six protocol levels have no defined order: such messages (and all messages under an unknown requested level) may be present or absent, order preserved")
 	r.Require("outcome.value.pipe", "outcome.error.pipe", "outcome.panic.pipe", "outcome.value.http", "outcome.error.http", "outcome.panic.http",
 		"log.kept", "log.filtered", "log.order(>=2 kept)", "log.extras", "log.exception-level", "log.unknown-level",
-		"level.absent", "level.unknown", "level.EXCEPTION", "level.TRACE", "level.INFO", "reqid.empty", "reqid.set", "void", "http.real-listener", "sentinel.same-value-different-request-id")
+		"level.absent", "level.unknown", "level.EXCEPTION", "level.TRACE", "level.INFO", "reqid.empty", "reqid.set", "void", "http.real-listener", "sentinel.same-value-different-request-id",
+		"probe.zero-value-result", "probe.duplicate-extra-keys", "probe.long-message", "probe.long-request-id")
 	for _, k := range svc.ErrKinds {
 		r.Require("error." + k)
 	}
